@@ -63,7 +63,8 @@ class Renderer:
             if path not in lib.bodies:
                 continue
             ins = [i.get("adt") for i in f["inputs"]]
-            if "options::Options" in ins and f["output"].get("adt") == "std::string::String":
+            out_param = any(i.get("s", "").startswith("&mut std::string::String") for i in f["inputs"])
+            if "options::Options" in ins and (f["output"].get("adt") == "std::string::String" or out_param):
                 cands.append(lib.bodies[path])
         self.option_fns = sorted(b.name for b in cands)
         def _emits_somewhere(b0):
@@ -76,6 +77,11 @@ class Renderer:
                     return True
             return False
         with_push = [b for b in cands if _emits_somewhere(b)]
+        if len(with_push) > 1:
+            # the renderer proper is the recursive one; a public entry that only creates the buffer is not
+            rec = [b for b in with_push if any(c.node["callee"].get("path") == b.name for c in b.calls())]
+            if len(rec) == 1:
+                with_push = rec
         self.ok = len(with_push) == 1
         if not self.ok:
             self.problems.append("expected one emitting function with an &Options parameter, found %s" % [b.name for b in with_push])
@@ -95,9 +101,15 @@ class Renderer:
         b = self.body = mir.inline_calls(lib, b, emits)
         self.opt_arg = [i for i, t in enumerate(f["inputs"]) if t.get("adt") == "options::Options"][0] + 1
         self.self_arg = 1
-        self.entry = [x for x in cands if x is not b]
+        self.entry = [x for x in cands if x.name != self.orig_name]
         # accumulators
         self.main = None
+        self.out_param = None
+        for i, t in enumerate(f["inputs"]):
+            if t.get("s", "").startswith("&mut std::string::String"):
+                self.out_param = i + 1
+        if self.out_param is not None:
+            self.main = self.out_param
         for s in b.assigns():
             if s.node["place"]["l"] == 0 and not s.node["place"]["p"] and s.node["rv"]["k"] == "use":
                 p = mir.op_place(s.node["rv"]["op"])
@@ -110,6 +122,8 @@ class Renderer:
             if cname(cs.node) == "std::string::String::push_str":
                 p = mir.op_place(cs.node["args"][0])
                 root = b.through_ref(p) if p is not None else None
+                if root is not None and root["p"] == ["deref"] and root["l"] == self.out_param:
+                    root = {"l": root["l"], "p": []}
                 if root is None or root["p"]:
                     self.problems.append("push_str onto something that is not a local String at %s" % cs.loc())
                     continue
@@ -150,6 +164,17 @@ class Renderer:
                     continue
                 self.emissions.append(Emission(cs, root["l"], term_of(b, cs.node["args"][1]), arguments=True))
                 accs.add(root["l"])
+        # out-parameter style: the recursive call appends the child's structs directly to a local accumulator
+        if self.out_param is not None:
+            for cs in b.calls():
+                if cs.node["callee"].get("path") == self.orig_name and len(cs.node["args"]) >= self.out_param:
+                    p = mir.op_place(cs.node["args"][self.out_param - 1])
+                    root = b.through_ref(p) if p is not None else None
+                    if root is not None and not root["p"] and root["l"] != self.out_param:
+                        e = Emission(cs, root["l"], ("call", mir._norm(self.orig_name), [], cs))
+                        e.kind = "child-structs"
+                        self.emissions.append(e)
+                        accs.add(root["l"])
         self.emissions.sort(key=lambda e: e.site.bb)
         self.accs = accs
         self.child_acc = None
